@@ -35,6 +35,25 @@ func (p *pathRun) byteLen(t *smt.Term) value {
 	return symInt{types.Int, v}
 }
 
+// absTerm is |t|, simplified when t is known to be non-negative (natural-number
+// inputs, reader outputs, inverses, coordinates, powers).
+func (p *pathRun) absTerm(t *smt.Term) *smt.Term {
+	if p.nonneg[t] {
+		return t
+	}
+	if t.Op == "app" && (t.Name == "pow" || t.Name == "gcd" || len(t.Name) > 2 && (t.Name[:2] == "X_" || t.Name[:2] == "Y_")) {
+		return t
+	}
+	return p.ctx.Abs(t)
+}
+
+func (p *pathRun) markNonNeg(t *smt.Term) {
+	if p.nonneg == nil {
+		p.nonneg = map[*smt.Term]bool{}
+	}
+	p.nonneg[t] = true
+}
+
 // bigBytes models (*big.Int).Bytes.
 func (p *pathRun) bigBytes(fr *frame, x bigval) value {
 	if x.c != nil {
@@ -46,7 +65,7 @@ func (p *pathRun) bigBytes(fr *frame, x bigval) value {
 		return out
 	}
 	c := p.ctx
-	mag := c.Abs(x.t)
+	mag := p.absTerm(x.t)
 	if x.t.Op == "bv2nat" && x.t.Args[0].Sort.W%8 == 0 {
 		bv := x.t.Args[0]
 		n := bv.Sort.W / 8
@@ -269,18 +288,15 @@ func (p *pathRun) hasInverse(t, m *smt.Term, seen map[*smt.Term]bool) bool {
 // construction).
 func (p *pathRun) congruent(a, b, m *smt.Term) *smt.Term {
 	c := p.ctx
-	plain := c.Eq(c.Mod(c.Sub(a, b), m), c.IntC64(0))
 	if len(p.inverses) == 0 || !(p.hasInverse(a, m, map[*smt.Term]bool{}) || p.hasInverse(b, m, map[*smt.Term]bool{})) {
-		// still flatten nested mods
-		memo := map[*smt.Term][2]*smt.Term{}
-		an, _ := p.rat(a, m, memo)
-		bn, _ := p.rat(b, m, memo)
-		return c.Eq(c.Mod(c.Sub(an, bn), m), c.IntC64(0))
+		// no inverses: the congruence of the flattened difference (ring homomorphism)
+		return p.zeroMod(c.Sub(a, b), m)
 	}
+	plain := c.Eq(c.Mod(c.Sub(a, b), m), c.IntC64(0))
 	memo := map[*smt.Term][2]*smt.Term{}
 	an, ad := p.rat(a, m, memo)
 	bn, bd := p.rat(b, m, memo)
-	cross := c.Eq(c.Mod(c.Sub(c.Mul(an, bd), c.Mul(bn, ad)), m), c.IntC64(0))
+	cross := p.zeroMod(c.Sub(c.Mul(an, bd), c.Mul(bn, ad)), m)
 	p.axiom("fraction-lemma", c.Eq(plain, cross))
 	return cross
 }
@@ -302,9 +318,9 @@ func (p *pathRun) reducedMod(t *smt.Term) *smt.Term {
 // are canonical residues of the same modulus.
 func (p *pathRun) smartEq(a, b *smt.Term) *smt.Term {
 	c := p.ctx
-	if len(p.inverses) > 0 {
+	{
 		ma, mb := p.reducedMod(a), p.reducedMod(b)
-		if ma != nil && ma == mb {
+		if ma != nil && ma == mb && a != b {
 			eq := c.Eq(a, b)
 			cg := p.congruent(a, b, ma)
 			p.axiom("residue-equality", c.Eq(eq, cg))
